@@ -45,7 +45,9 @@ def run_k(ctx, kres):
     v = k_suite(ctx, kres, "K05-persist", traces, in_projection, sig_of=sig_of)
     v += k_suite(ctx, kres, "K05-fixture", [fixture_trace(tables)], in_projection, sig_of=sig_of, shrink_budget=0)
     if not ctx.quick and ctx.stamp["variants"].get("db", {}).get("ok"):
-        def nodump(t): return "\n".join(("nop" if l == "dumpdir" else l) for l in t.split("\n"))
+        # no directory decoding on SQLite; and no C_CopyObject: on SQLite a copy of a token object carries CKA_CLASS only (known finding of C20, `sqlite:copy-of-token-object`),
+        # which a later search after the restart would meet again under C05's name
+        def nodump(t): return "\n".join(("nop" if (l == "dumpdir" or l.startswith("copy ")) else l) for l in t.split("\n"))
         dbt = [Trace("persist-db%d" % i, nodump(gen.persist_history(ctx.seed * 104729 + i, tables, 60)), variant="db", backend="db") for i in range(100)]
         # the SQLite backend answers some calls differently from the file backend (C20 reports those); what C05 asks of it is persistence: what is found after a restart
         v += k_suite(ctx, kres, "K05-persist-sqlite", dbt, lambda m: m["op"] in ("findinit", "find") and m["cat"] in ("nums", "rvclass"), sig_of=sig_of)
